@@ -111,6 +111,21 @@ Section Wf.
     forallb (fun n => negb (list_eqb n K.k_inputclass) && negb (list_eqb n K.k_backtrackclass)
                       && negb (list_eqb n K.k_lookaheadclass)) (f_names F).
 
+  Definition anchor_ok (a : anchor) : bool := int16_ok (fst a) && int16_ok (snd a).
+  (* GPOS2-4 subtables in the form the parser produces *)
+  Definition pos_wf (p : pos_sub) : bool :=
+    match p with
+    | Gpos3_1 cov records =>
+        negb (is_nil cov) && ascendingb cov && (length cov =? length records)%nat && gids_ok cov
+        && forallb (fun r => anchor_ok (fst r) && anchor_ok (snd r)) records
+    | Gpos4_1 mc ma bc ba =>
+        negb (is_nil mc) && ascendingb mc && (length mc =? length ma)%nat && gids_ok mc
+        && forallb (fun m => (fst m <? 65536) && anchor_ok (snd m)) ma
+        && classes_complete (map fst ma)
+        && ascendingb bc && (length bc =? length ba)%nat && gids_ok bc
+        && forallb (fun an => (length an =? num_classes (map fst ma))%nat && forallb anchor_ok an) ba
+    end.
+
   (* no glyph is called "class" (the word starts a class definition in GSUB5) *)
   Definition no_class_names : bool :=
     forallb (fun n => negb (list_eqb n K.k_class)) (f_names F).
@@ -118,6 +133,7 @@ Section Wf.
   (* subtables in the form the parser produces (what the language can express) *)
   Definition sub_wf (s : subtable) : bool :=
     match s with
+    | Pos p => pos_wf p
     | Chn h => chain_wf h
     | Ctx c => ctx_wf c
     | Gsub1_1 cov delta =>
@@ -147,6 +163,8 @@ Section Wf.
 
   Definition sub_type (s : subtable) : N :=
     match s with
+    | Pos (Gpos3_1 _ _) => 3
+    | Pos (Gpos4_1 _ _ _ _) => 4
     | Chn _ => 6
     | Ctx _ => 5
     | Gsub1_1 _ _ | Gsub1_2 _ _ => 1
@@ -155,7 +173,7 @@ Section Wf.
     | Gsub4_1 _ _ => 4
     | Gpos1_1 _ _ | Gpos1_2 _ _ => 1
     end.
-  Definition is_ctx (s : subtable) : bool := match s with Ctx _ | Chn _ => true | _ => false end.
+  Definition is_ctx (s : subtable) : bool := match s with Ctx _ | Chn _ | Pos _ => true | _ => false end.
   Definition is_gpos (s : subtable) : bool :=
     match s with Gpos1_1 _ _ | Gpos1_2 _ _ => true | _ => false end.
 
@@ -179,8 +197,21 @@ Section Wf.
   (* GSUB1-6 *)
   Definition gsub_lookup_wf6 (lk : lookup) : bool := gsub_lookup_wf5 lk || chain_lookup_wf lk.
 
+  (* GPOS3: one or more subtables *)
+  Definition gpos3_lookup_wf (lk : lookup) : bool :=
+    flags_ok (l_flags lk) && (l_type lk =? 3) && negb (is_nil (l_subs lk))
+    && forallb (fun s => match s with Pos (Gpos3_1 c r) => pos_wf (Gpos3_1 c r) | _ => false end) (l_subs lk).
+
+  Definition gpos4_lookup_wf (lk : lookup) : bool :=
+    flags_ok (l_flags lk) && (l_type lk =? 4) && negb (is_nil (l_subs lk))
+    && forallb (fun s => match s with Pos (Gpos4_1 a b c d) => pos_wf (Gpos4_1 a b c d) | _ => false end) (l_subs lk).
+
   (* GPOS1: one or more subtables *)
   Definition gpos_lookup_wf (lk : lookup) : bool :=
     flags_ok (l_flags lk) && (l_type lk =? 1) && negb (is_nil (l_subs lk))
     && forallb (fun s => is_gpos s && sub_wf s) (l_subs lk).
+
+  (* the GPOS fragment of the round-trip theorem *)
+  Definition gpos_lookup_wf_all (lk : lookup) : bool :=
+    gpos_lookup_wf lk || gpos3_lookup_wf lk || gpos4_lookup_wf lk.
 End Wf.
